@@ -9,7 +9,7 @@ from vflib import core, simrun
 from simnet import hostile, kernel, mclient, proto, scen
 from simnet.scen import US
 
-CLASSES = ["arbitrary", "dns", "tunnel", "tunnel_auth", "raw", "raw_auth", "tun", "up_stream"]
+CLASSES = ["arbitrary", "dns", "tunnel", "tunnel_auth", "raw", "raw_auth", "tun", "up_stream", "runt_up"]
 
 
 def setup_state(sim, S, state, rng, k):
@@ -197,6 +197,15 @@ def one_run(params):
                 d, src = hostile.raw_shaped(rng, userids=out_uids, avoid=avoid), att
             elif cls == "raw_auth":
                 d, src = hostile.raw_shaped(rng, userids=(S.userid,), avoid=(H.userid,)), S
+            elif cls == "runt_up":
+                # the logged-in session sends complete, well-formed upstream packets that inflate to less than an IP header
+                runt = bytes(rng.getrandbits(8) for _ in range(rng.choice([0, 1, 4, 5, 19, 20, 23])))
+                if params["state"] == "raw" and rng.random() < 0.7:
+                    d, src = proto.raw_frame(proto.RAW_DATA, S.userid, proto.deflate(runt)), S
+                else:
+                    S.up_seq = (S.up_seq + 1) & 7
+                    S.query(S.data_labels(S.up_seq, 0, 1, proto.deflate(runt)))
+                    d = None
             elif cls == "up_stream":
                 if params["state"] == "raw":
                     d, src = hostile.tunnel_shaped(rng, dl, userids=(S.userid,), avoid=(H.userid,)), S
@@ -320,9 +329,9 @@ def run(ctx):
     res = core.Result()
     res.rule = ("scenario = real iodined (ASan+UBSan, random options -c / -b / wildcard domain / netmask) with a healthy "
                 "model-client session and a sacrificial logged-in session placed in one of 11 protocol states (incl. every slot taken), then "
-                "150-600 hostile inputs from 8 generator classes (arbitrary bytes, malformed DNS, tunnel-shaped "
+                "150-600 hostile inputs from 9 generator classes (arbitrary bytes, malformed DNS, tunnel-shaped "
                 "commands from outsiders and from the logged-in address, raw frames from both, hostile tun frames, "
-                "never-ending upstream packets of 70-140 KB in maximal fragments from the logged-in session, failing reads on the tun descriptor) "
+                "never-ending upstream packets of 70-140 KB in maximal fragments and complete packets of 0-23 bytes from the logged-in session, failing reads on the tun descriptor) "
                 "interleaved with time advances; oracle: no sanitizer report, no exit, no stall, and the healthy "
                 "session still moves a frame each way afterwards. evaluations = hostile inputs delivered. "
                 "non-trivial/distinct = (session state, generator class, -c, wildcard) combinations that completed with the probe passing.")
@@ -345,5 +354,27 @@ def run(ctx):
     res.min_nontrivial = 0 if ctx.replay else ctx.pick(40, 120)
     with core.Build() as b:
         simrun.run_scenarios(res, b, scn, plist, jobs=ctx.jobs)
+        # memcheck pass: the same scenarios, fewer of them, with non-sanitized programs under valgrind memcheck (uninitialised
+        # values and the invalid accesses ASan's red zones cannot see); the first error ends the program
+        if not ctx.replay or (ctx.replay.get("witness") or {}).get("params", {}).get("memcheck"):
+            mlist = [dict(p, idx=500000 + j, memcheck=True, ndgrams=min(p["ndgrams"], 150)) for j, p in enumerate(plist[::max(1, len(plist) // ctx.pick(16, 400))][:ctx.pick(16, 400)])]
+            if ctx.replay:
+                mlist = [ctx.replay["witness"]["params"]]
+            if mlist:
+                with core.Build(sanitize=False) as b2:
+                    mres = core.Result()
+                    simrun.run_scenarios(mres, b2, scn, mlist, jobs=ctx.jobs, memcheck_=True)
+                    simrun.finalize_sets(mres)
+                res.violations += mres.violations
+                res.harness_errors += mres.harness_errors
+                res.evaluations += mres.evaluations
+                res.inconclusive += mres.inconclusive
+                res.scenarios = getattr(res, "scenarios", 0) + getattr(mres, "scenarios", 0)
+                for kk, vv in mres.inconclusive_why.items():
+                    res.inconclusive_why[kk] = res.inconclusive_why.get(kk, 0) + vv
+                res.extra["memcheck_scenarios"] = len(mlist)
+                res.extra["memcheck_evaluations"] = mres.evaluations
+                for sig in mres.nontrivial:
+                    res.nt("memcheck " + sig)
     simrun.finalize_sets(res)
     return res
